@@ -73,6 +73,12 @@ impl PutQuery {
             }
         }
 
+        if self.inflight_requests.is_empty() {
+            // None of the nodes gave us a token, nothing was sent, and nothing
+            // would ever finish this query.
+            Err(PutQueryError::NoClosestNodes)?;
+        }
+
         Ok(())
     }
 
